@@ -5,6 +5,7 @@ import os
 import evalfam
 import stratfam
 import storefam
+import concfam
 from vlib import InfraError
 
 CHECKS = {}
@@ -23,6 +24,8 @@ def replay(ctx, path):
     fam = obj.get("replay_family", "eval")
     if fam == "eval":
         return evalfam.replay(ctx, obj)
+    if fam in ("lin", "race"):
+        return concfam.replay(ctx, obj)
     if fam == "store":
         return storefam.replay(ctx, obj)
     if fam == "strat":
@@ -68,3 +71,8 @@ def c05(ctx):
 @register("C06")
 def c06(ctx):
     return storefam.check_c06(ctx)
+
+
+@register("C18")
+def c18(ctx):
+    return concfam.check_c18(ctx)
